@@ -17,7 +17,7 @@ import os
 import shutil
 import tempfile
 
-from vf import core, ignore_ref
+from vf import cli, core, ignore_ref
 from vf.explorer import Outcome, Space
 
 core.bind()
@@ -56,7 +56,9 @@ SETTINGS = [
     dict(files_max_size=0),
     dict(force_exclude=True, extend_exclude=["sub/drafts/"]),
 ]
-ARGS = [".", "sub", "a.md", "node_modules/n.md", "lf_in.md", "*.md", "**/*.md", "sub/*.md", "drafts", "sub/drafts/d.md", "big.md", "zz", "lbig.md", "sub/lbig_out.md"]
+ARGS = [".", "sub", "a.md", "node_modules/n.md", "lf_in.md", "*.md", "**/*.md", "sub/*.md", "drafts", "sub/drafts/d.md", "big.md", "zz", "lbig.md", "sub/lbig_out.md",
+        # appended later: directory arguments whose spelling is not canonical ("..", a symlinked directory)
+        "zz/../sub", "../t", "ld_in"]
 
 _CACHE = {}
 
@@ -192,6 +194,17 @@ def _glob_match(pattern, rel):
     return m(0, 0)
 
 
+def _flags(kw):
+    """The command-line spelling of a settings dict."""
+    f = ["--files-max-size", str(kw.get("files_max_size", LIMIT))]
+    for k, flag in (("extend_include", "--extend-include"), ("exclude", "--exclude"), ("extend_exclude", "--extend-exclude")):
+        for v in kw.get(k) or []:
+            f += [flag, v]
+    if kw.get("force_exclude"):
+        f.append("--force-exclude")
+    return f
+
+
 # ------------------------------------------------------------------------------------ the space
 class Discovery(Space):
     prop = "C17"
@@ -269,6 +282,13 @@ class Discovery(Space):
                 got, got_rev = None, None
                 if not (isinstance(e, FileNotFoundError) and want == "FileNotFoundError"):
                     viol.append(("exception:" + type(e).__name__, {"args": argv, "settings": settings, "error": str(e)[:200]}))
+            # the same question asked at the command line: `flowmark --list-files <settings> <args>` prints exactly that list
+            if got is not None and order == 0:
+                code, out, err = cli.run_inproc(["--list-files", "--no-respect-gitignore"] + _flags(kw) + argv, cwd)
+                listed = out.split("\n")[:-1] if out else []
+                if code != 0 or listed != got:
+                    viol.append(("cli-list-files-differs", {"args": argv, "settings": settings, "exit": code, "cli": [os.path.relpath(p, d) if os.path.isabs(p) else p for p in listed],
+                                                            "resolver": [os.path.relpath(p, d) for p in got], "stderr": err[-200:]}))
         finally:
             resolver_mod.os.walk = real_walk
             os.chdir(old_cwd)
